@@ -254,6 +254,40 @@ Proof.
 Qed.
 Print Assumptions C01_preserves_refuted_foreign_condition.
 
+(* F30: a fragment on an interface that itself spreads a fragment on a sub type: the nested spread yields
+   neither a variant class nor a field of the base class, so its keys are not covered (but accepted) *)
+Definition S30 : schema :=
+  {| s_types := [("Query", DObject [] [("named", TNamed "Named")]);
+                 ("Named", DInterface [] [("name", TNamed "String")]);
+                 ("A", DObject ["Named"] [("name", TNamed "String"); ("x", TNamed "Int")])] ++ std;
+     s_query := Some "Query"; s_mutation := None; s_subscription := None |}.
+Definition F30 : list fragdef :=
+  [{| fr_name := "NF"; fr_on := "Named"; fr_mixins := [];
+      fr_sel := [SField None "name" false [] None; SSpread "AF" false] |};
+   {| fr_name := "AF"; fr_on := "A"; fr_mixins := []; fr_sel := [SField None "x" false [] None] |}].
+Theorem C01_preserves_refuted_subtype_spread : ~ C01_preserves_full.
+Proof.
+  intro H.
+  specialize (H 30 C0 S30 F30 "query" "Q" []
+                [SField None "named" false []
+                   (Some [SField None "__typename" false [] None; SSpread "NF" false])]
+                "Query" _
+                (JObj [("named", JObj [("__typename", JStr "A"); ("name", JStr "n"); ("x", JInt 1)])])
+                eq_refl eq_refl eq_refl).
+  vm_compute in H. discriminate.
+Qed.
+Print Assumptions C01_preserves_refuted_subtype_spread.
+
+(* the same input IS accepted: only preservation fails *)
+Example C01_F30_accepted :
+  exists cls,
+    all_classes 30 C0 S30 F30 (DOp "query" "Q" []
+       [SField None "named" false []
+          (Some [SField None "__typename" false [] None; SSpread "NF" false])]) = Ok cls /\
+    accepts 30 cls (schema_enums S30) (AClass "Q")
+            (JObj [("named", JObj [("__typename", JStr "A"); ("name", JStr "n"); ("x", JInt 1)])]) = true.
+Proof. eexists. split; [vm_compute; reflexivity|]. vm_compute. reflexivity. Qed.
+
 (* ---- non-vacuity: a nested, aliased, abstract selection that IS accepted and covered ---- *)
 Example C01_full_hypotheses_satisfiable :
   exists cls,
